@@ -203,3 +203,40 @@ func VP_C08_nbtfield() {
 	}
 	vp.Cover("end")
 }
+
+// long streams: declared lengths around allocation caps a decoder might use
+// (1024, 4096, 65536) with that many - or fewer - elements actually present;
+// never a panic, and success exactly when every declared element is present.
+func VP_C08_ary_long() {
+	have := []int{1500, 5000, 70000}[vp.Choice(2+vp.Tier())]
+	decl := []int{0, 1023, 1024, 1025, 1500, 1501, 4096, 4097, 5000, 65536, 65537, 70000, 70001, 1 << 22}[vp.Choice(14)]
+	vp.Assume(decl <= have+1 || decl == 1<<22)
+	vp.SizeBound(2*have + 64)
+	vp.Unwind(have + 64)
+	vp.MaxSteps(900000000)
+	body := vp.Noise(have)
+	for i := range body {
+		body[i] &= 0x7f // every byte is a complete one-byte VarInt / a Byte
+	}
+	stream := append(vpVarIntRef(int32(decl)), body...)
+	r := bytes.NewReader(stream)
+	var n int64
+	var err error
+	var got int
+	if vp.Choice(2) == 0 {
+		var dst []VarInt
+		n, err = Ary[VarInt]{Ary: &dst}.ReadFrom(r)
+		got = len(dst)
+	} else {
+		dst := make([]Byte, 3, 8)
+		n, err = Ary[VarInt]{Ary: &dst}.ReadFrom(r)
+		got = len(dst)
+	}
+	prefix := len(vpVarIntRef(int32(decl)))
+	if decl <= len(stream)-prefix {
+		vp.Assert(err == nil && got == decl && n == int64(prefix+decl), "every declared element present: decoded completely")
+	} else {
+		vp.Assert(err != nil, "fewer elements than declared: an error")
+	}
+	vp.Cover("end")
+}
